@@ -3284,12 +3284,17 @@ macro_rules! config_namespace_with_hashmap {
                 let parts: Vec<&str> = key.splitn(2, "::").collect();
                 match parts.as_slice() {
                     [inner_key, hashmap_key] => {
-                        // Get or create the struct for the specified key
-                        let inner_value = self
-                            .entry((*hashmap_key).to_owned())
-                            .or_insert_with($struct_name::default);
-
-                        inner_value.set(inner_key, value)
+                        // Get or create the struct for the specified key; a new entry is
+                        // only inserted when the value was accepted
+                        match self.get_mut(*hashmap_key) {
+                            Some(inner_value) => inner_value.set(inner_key, value),
+                            None => {
+                                let mut inner_value = $struct_name::default();
+                                inner_value.set(inner_key, value)?;
+                                self.insert((*hashmap_key).to_owned(), inner_value);
+                                Ok(())
+                            }
+                        }
                     }
                     _ => _config_err!("Unrecognized key '{key}'."),
                 }
